@@ -343,9 +343,10 @@ for idx, k in enumerate(cases):
             if same:
                 R.violation('oracle', inp, 'guard tables_agree is false but the two files are identical (the finding no longer reproduces)', finding_key=None)
             else:
+                if not found_known:     # reported once: further instances must not crowd genuine alarms out of the capped list
+                    R.violation('oracle', inp, 'heuristic detection used the source corners: table/footer differ from the converted sub-cube '
+                                '(data section equal: %s)' % (F['data'] == ref['data']), finding_key=FINDING)
                 found_known = True
-                R.violation('oracle', inp, 'heuristic detection used the source corners: table/footer differ from the converted sub-cube '
-                            '(data section equal: %s)' % (F['data'] == ref['data']), finding_key=FINDING)
                 if F['data'] != ref['data'] or F['raw'][:64] != ref['raw'][:64] or F['raw'][68:980] != ref['raw'][68:980] or F['raw'][4096:8192] != ref['raw'][4096:8192]:
                     R.violation('oracle', inp, 'outside the guard only the header-word table, array count and footer may differ')
     else:
@@ -389,6 +390,32 @@ for idx, k in enumerate(cases):
     hrows = b''.join(np.ascontiguousarray(c.cube[si, sx], dtype=np.float32).tobytes() for row in hashed for (si, sx) in row)
     if hashlib.sha1(hrows).digest() != F['hash']:
         R.violation('corr', inp, 'SHA-1 of the rows the model feeds to the hash is not the stored hash')
+
+# ------------------------------------------------------------------------------------------------ the command line
+# `seismic-zfp sgy2sgz --min-il .. --max-il .. --min-xl .. --max-xl ..` must write what the API writes (a bound of 0 is
+# passed as the integer 0, not as "absent")
+try:
+    from click.testing import CliRunner
+    from seismic_zfp import cli as szcli
+    c = next(cc for cc in cubes if cc.name == 'c79')
+    for w in [(0, 4, 0, 4), (1, 5, 2, 7), (0, 7, 3, 9)]:
+        for ri in (False, True):
+            cp, ap = os.path.join(d, 'cli.sgz'), os.path.join(d, 'api.sgz')
+            res = CliRunner().invoke(szcli.cli, ['sgy2sgz', c.path, cp, '--bits-per-voxel', str(c.bpv), '--reduce-iops', str(ri),
+                                                 '--min-il', str(w[0]), '--max-il', str(w[1]), '--min-xl', str(w[2]), '--max-xl', str(w[3])])
+            inp = dict(cube=c.name, window=list(w), reduce_iops=ri, mode='heuristic', route='cli')
+            R.case(('cli', w, ri), nontrivial=True)
+            R.count('cli')
+            if res.exit_code != 0 or not os.path.exists(cp):
+                R.violation('oracle', inp, f'CLI conversion failed: exit {res.exit_code} {res.exception!r}')
+                continue
+            write_segy_sgz(c.path, ap, bpv=c.bpv, reduce_iops=ri, window=w)
+            x, y = open(cp, 'rb').read(), open(ap, 'rb').read()
+            if x != y:
+                R.violation('oracle', inp, 'the CLI writes a different file than the API for the same window: ' + first_diff(x, y))
+            os.remove(cp)
+except ImportError as e:
+    R.notes.append(f'CLI route not exercised: {e}')
 
 if found_known:
     R.known.append(FINDING)
